@@ -31,21 +31,31 @@ class CommitteeCalc:
         return 0.0
 
 
-def _mk(V, scheme, update, natoms=1):
+def _mk(V, scheme, update, natoms=1, reassign=False):
     from quansino.mc.fbmc import AdaptiveForceBias
 
     dmin = V.real("dmin", lo=0, lo_strict=True, hi=5)
     span = V.real("span", lo=0, hi=5)
     dmax = dmin + span
     ref = V.real("ref", lo=1e-6, hi=100)
+    ref_final = ref
+    if reassign:
+        # the documented settings are plain attributes: set them on the live object
+        ref = V.real("ref_init", lo=1e-6, hi=100)
     if V.mode == "sym":
         atoms = shims.SymAtoms("HO"[:natoms], positions=[[0.0, 0.0, 0.0], [1.1, 0.3, 0.2]][:natoms])
     else:
         from ase import Atoms
 
         atoms = Atoms("HO"[:natoms], positions=[[0.0, 0.0, 0.0], [1.1, 0.3, 0.2]][:natoms])
-    fb = AdaptiveForceBias(atoms, min_delta=dmin, max_delta=dmax, temperature=300.0, scheme=scheme, reference_variance=ref, update_function=update, seed=5)
-    return fb, atoms, dmin, dmax, ref
+    if reassign:
+        fb = AdaptiveForceBias(atoms, min_delta=V.real("dmin_init", lo=0, lo_strict=True, hi=5), max_delta=V.real("dmax_init", lo=5, hi=10), temperature=300.0, scheme=scheme, reference_variance=ref, update_function=update, seed=5)
+        fb.reference_variance = ref_final
+        fb.min_delta = dmin
+        fb.max_delta = dmax
+    else:
+        fb = AdaptiveForceBias(atoms, min_delta=dmin, max_delta=dmax, temperature=300.0, scheme=scheme, reference_variance=ref, update_function=update, seed=5)
+    return fb, atoms, dmin, dmax, ref_final
 
 
 def _between(V, x, lo, hi, tol=0.0):
@@ -54,11 +64,11 @@ def _between(V, x, lo, hi, tol=0.0):
     return lo - tol - 1e-12 <= x <= hi + tol + 1e-12
 
 
-def sc_energy(V, update="tanh", case="general"):
+def sc_energy(V, update="tanh", case="general", reassign=False):
     """Energy scheme with a two-member committee: v = std(e1,e2)/N = |e1-e2|/(2N)."""
-    fb, atoms, dmin, dmax, ref = _mk(V, "energy", update)
+    fb, atoms, dmin, dmax, ref = _mk(V, "energy", update, reassign=reassign)
     n = len(atoms)
-    info = f"energy:{update}:{case}"
+    info = f"energy:{update}:{case}:reassign={reassign}"
     if case == "nodata":
         atoms.calc = CommitteeCalc({})
         fb.update_delta()
@@ -179,6 +189,8 @@ def _plan(tier):
         plan.append(("function", dict(update=up), ("done",)))
         for case in ("general", "zero", "reference", "large", "nodata"):
             plan.append(("energy", dict(update=up, case=case), ("done",)))
+        for case in ("reference", "nodata", "zero"):
+            plan.append(("energy", dict(update=up, case=case, reassign=True), ("done",)))
         for case in ("general", "nodata"):
             plan.append(("forces", dict(update=up, case=case), ("done",)))
     plan.append(("energy", dict(update="tanh", case="reference"), (), "midpoint-at-reference"))
